@@ -170,6 +170,28 @@ def blockModel (half : Bool) (kind : Scaler.Kind) (W H : Nat) (px : Array Pix8) 
     -- screen order = row major; the cell list is row major within the image already
     size ++ String.join (drawn.map fun (x, y, c) => ";" ++ showBCell (col + x.toNat) (row + y.toNat) c)
 
+/-- Model side of a block line whose source is of another concrete type (round 4: `*image.YCbCr`), given as what
+    `At(x, y).RGBA()` returns per pixel: `Scaler.resizeImgG` (fit test, float steps, the scaler's generic path) then the
+    same cell loops, `Draw` loop and window clipping as `blockModel`. -/
+def blockModelG (half : Bool) (W H : Nat) (px16 : Array C16) (bw bh : Nat) (col row : Nat) (ww wh : Int) : String :=
+  let geom := if half then Gen.ImageConsts.halfBlockGeom else Gen.ImageConsts.fullBlockGeom
+  match Scaler.resizeImgG floatOps ⟨W, H, px16⟩ true bw bh geom.1 geom.2 with
+  | .error _ => "panic"
+  | .ok view =>
+    let size := s!"{view.w} {blockHeight view.h}"
+    let cells := if half then Blocks.halfCellsGen view else Blocks.fullCells view
+    let width := childExtent col ww screenW
+    let height := childExtent row wh screenH
+    let lp := if half then Gen.ImageConsts.halfDrawLoop else Gen.ImageConsts.fullDrawLoop
+    let wantForm : Gen.ImageConsts.CellForm := if half then .stored else .spaceOnStoredBg
+    let coords := (List.range cells.length).map fun i => KittyTerm.loopCoords lp view.w i
+    if !lp.rangeCells || !lp.extra.isEmpty || lp.cell != wantForm || coords.any (·.isNone) then size ++ ";unknown-draw-loop" else
+    let placed : List (Int × Int × BCell) := (cells.zip coords).filterMap fun (e, xy) => xy.map fun (x, y) => (x, y, e.2.2)
+    let drawn := placed.filter fun (x, y, c) =>
+      0 ≤ x && 0 ≤ y && x < width && y < height && col + x < screenW && row + y < screenH &&
+      c != (⟨0x20, 0, 0⟩ : BCell)
+    size ++ String.join (drawn.map fun (x, y, c) => ";" ++ showBCell (col + x.toNat) (row + y.toNat) c)
+
 structure ICell where
   x : Nat
   y : Nat
@@ -726,7 +748,30 @@ def step (s : St) (line : String) : St × String :=
     | some (c :: cs) => (s, s!"{showC8 (Blocks.averageColor c cs)}\t{impl}\t-")
     | _ => (s, bad)
   | [kind, W, H, hexs, bw, bh, col, row, ww, wh] =>
-    if kind = "half" ∨ kind = "full" ∨ kind = "halfp" ∨ kind = "fullp" ∨ kind = "halfg" ∨ kind = "fullg" ∨ kind = "halfq" ∨ kind = "fullq" then
+    if kind = "halfy" ∨ kind = "fully" ∨ kind = "halfz" ∨ kind = "fullz" then
+      -- round 4: `*image.YCbCr` sources (4:4:4 / 4:2:0): the pixel as `color.YCbCr.RGBA()` gives it (16-bit), through
+      -- the generic pipeline.  Oracle: the same pixel clause with the 8-bit colour such a pixel has where it is read —
+      -- `toRGB` of the 16-bit value for an unscaled image, its high bytes after the scaler's 8-bit storage.
+      match natList? [W, H, bw, bh, col, row], ww.toInt?, wh.toInt? with
+      | some [W, H, bw, bh, col, row], some ww, some wh =>
+        match parsePixels W H hexs with
+        | some px0 =>
+          let half := kind.startsWith "half"
+          let sub := kind.endsWith "z"
+          let at16 (x y : Nat) : C16 :=
+            let p := pixAt W H px0 x y
+            let c := if sub then pixAt W H px0 (x - x % 2) (y - y % 2) else p
+            c16of (ycbcrRGBA p.r c.g c.b)
+          let px16 : Array C16 := Array.ofFn (n := W * H) fun i => at16 (i.val % W) (i.val / W)
+          let m := blockModelG half W H px16 bw bh col row ww wh
+          let scaled := W > bw ∨ (H + 1) / 2 > bh
+          let straight : Array Pix8 := px16.map fun c =>
+            if scaled then ⟨c.r / 256, c.g / 256, c.b / 256, 255⟩
+            else let t := Blocks.toRGB c; ⟨t.r, t.g, t.b, t.a⟩
+          (s, s!"{m}\t{impl}\t{blockVerdict half false W H straight bw bh col row ww wh impl}")
+        | none => (s, bad)
+      | _, _, _ => (s, bad)
+    else if kind = "half" ∨ kind = "full" ∨ kind = "halfp" ∨ kind = "fullp" ∨ kind = "halfg" ∨ kind = "fullg" ∨ kind = "halfq" ∨ kind = "fullq" then
       match natList? [W, H, bw, bh, col, row], ww.toInt?, wh.toInt? with
       | some [W, H, bw, bh, col, row], some ww, some wh =>
         match parsePixels W H hexs with
